@@ -359,7 +359,11 @@ class Interp:
                 [Seg("repeat", width, over=cloop.over, count=cloop.count, body=delta.segs, var=None)]
             )
         for name, elem in cloop.appends.items():
-            after.env[name] = ("rrepeat", rid, elem)
+            if cloop.over and not cloop.reads:
+                # a list built from the elements of a field (writer side): same value as [ELT for v in field]
+                after.env[name] = ("repeat", cloop.over, cloop.count, elem, None)
+            else:
+                after.env[name] = ("rrepeat", rid, elem)
         res: t.List[t.Tuple[State, Outcome]] = [(after, Outcome("fall"))]
         for x, o in early:
             res.append((x, o))
